@@ -27,7 +27,7 @@ import Mathlib.Tactic.LinearCombination
   `(z − z0)²·H(z)` with continuous `H` would force `S(z0,z0) = 0` (the only topology used: a continuous
   function vanishing off a point vanishes at it).  `lsf_computed_roots`: consequences for root lists that
   multiply back to the deflated polynomials; `unit_arg`, `pos_angle_count`: angles over `ℂ`.
-  Interlacing of the zeros of `P1` and `Q1` is NOT proved here.
+  Interlacing of the zeros of `P1` and `Q1`: `Lemmas/LsfInterlace.lean`.
 -/
 namespace SpecVerif.LsfCircleL
 open Finset SpecVerif SpecVerif.SchurL SpecVerif.LpcL
